@@ -58,6 +58,11 @@ Definition seq_count (c : N) (s : list N) : N := bv_ones (seq_bits c s).
 (* B. BitSequenceRG                                                    *)
 (* ------------------------------------------------------------------ *)
 
+(* checked array read = Base.nthN (lemma rdN_eq); the explicit bound test only
+   keeps the extracted code from building a huge unary index when the C++ index
+   has wrapped around *)
+Definition rdN {A} (l : list A) (i : N) : option A := if i <? lenN l then nthN l i else None.
+
 Definition W32 : N := 4294967296.
 Definition W64 : N := 18446744073709551616.
 Definition u32 (x : N) : N := x mod W32.   (* value kept in a [uint]   *)
@@ -120,7 +125,7 @@ Fixpoint build_rank_sub (data : list N) (integers : N) (i : N) (cnt : nat) (rank
   | O => Some rank
   | S c =>
       if i <? integers then
-        match nthN data i with
+        match rdN data i with
         | None => None
         | Some aux => build_rank_sub data integers (i + 1) c (u32 (rank + popcount aux))
         end
@@ -162,7 +167,7 @@ Fixpoint sum_pop (data : list N) (a : N) (cnt : nat) (resp : N) : option N :=
   match cnt with
   | O => Some resp
   | S c =>
-      match nthN data a with
+      match rdN data a with
       | None => None
       | Some w => sum_pop data (a + 1) c (u32 (resp + popcount w))
       end
@@ -170,14 +175,14 @@ Fixpoint sum_pop (data : list N) (a : N) (cnt : nat) (resp : N) : option N :=
 
 Definition rg_rank1 (d : rg) (i1 : N) : option N :=
   let i := u32 (u32 i1 + 1) in
-  match nthN (rg_rs d) (i / rg_s d) with
+  match rdN (rg_rs d) (i / rg_s d) with
   | None => None
   | Some resp0 =>
       let aux := u32 ((i / rg_s d) * rg_factor d) in
       match sum_pop (rg_data d) aux (N.to_nat (i / 32 - aux)) resp0 with
       | None => None
       | Some resp1 =>
-          match nthN (rg_data d) (i / 32) with
+          match rdN (rg_data d) (i / 32) with
           | None => None
           | Some w => Some (u32 (resp1 + popcount (N.land w (c_mask (N.land i 31)))))
           end
@@ -193,7 +198,7 @@ Definition rg_rank0 (d : rg) (i : N) : option N :=
 
 (* access(i) = (1u << (i % W)) & data[i / W] *)
 Definition rg_access (d : rg) (i : N) : option bool :=
-  match nthN (rg_data d) (i / 32) with
+  match rdN (rg_data d) (i / 32) with
   | None => None
   | Some w => Some (negb (N.land (N.shiftl 1 (i mod 32)) w =? 0))
   end.
@@ -204,7 +209,7 @@ Definition uint_len (e n : N) : N := u32 ((u32 e * n + 31) / 32).
 Definition rg_build (bitarray : list N) (n factor : N) : option rg :=
   if factor =? 0 then None (* exit(-1) *) else
   let ulen := uint_len n 1 in
-  match tabulate_opt (fun i => if i <? ulen then nthN bitarray i else Some 0) 0 (N.to_nat (n / 32 + 1)) with
+  match tabulate_opt (fun i => if i <? ulen then rdN bitarray i else Some 0) 0 (N.to_nat (n / 32 + 1)) with
   | None => None
   | Some data =>
       let s := 32 * factor in
@@ -237,7 +242,7 @@ Fixpoint rg_bsearch (key : N -> N -> N) (rs : list N) (x : N) (fuel : nat) (l r 
         let l' := if rankmid <? x then u32 (mid + 1) else l in
         let r' := if rankmid <? x then r else u32 (mid + W32 - 1) in
         let mid' := u32 (l' + r') / 2 in
-        match nthN rs mid' with
+        match rdN rs mid' with
         | None => None
         | Some v => rg_bsearch key rs x f l' r' mid' (key mid' v)
         end
@@ -245,77 +250,91 @@ Fixpoint rg_bsearch (key : N -> N -> N) (rs : list N) (x : N) (fuel : nat) (l r 
   else Some (mid, rankmid).
 
 (* sequential search using popcount over a int:
-     while (ones < x) { x -= ones; left++; if (left > integers) return n; j = data[left]; ones = cnt(j); } *)
-Fixpoint rg_scan (cntf : N -> N) (data : list N) (integers n : N) (fuel : nat) (x left j ones : N)
+     while (ones < x) { x -= ones; lft++; if (lft > integers) return n; j = data[lft]; ones = cnt(j); } *)
+Fixpoint rg_scan (cntf : N -> N) (data : list N) (integers n : N) (fuel : nat) (x lft j ones : N)
   : option (N + N * N * N) :=
   if ones <? x then
     match fuel with
     | O => None
     | S f =>
         let x' := x - ones in
-        let left' := u32 (left + 1) in
-        if integers <? left' then Some (inl n) else
-        match nthN data left' with
+        let lft' := u32 (lft + 1) in
+        if integers <? lft' then Some (inl n) else
+        match rdN data lft' with
         | None => None
-        | Some j' => rg_scan cntf data integers n f x' left' j' (cntf j')
+        | Some j' => rg_scan cntf data integers n f x' lft' j' (cntf j')
         end
     end
-  else Some (inr (x, left, j)).
+  else Some (inr (x, lft, j)).
 
 (* sequential search using popcount over a char (three unrolled steps) *)
-Definition rg_bytes (cnt8 : N -> N) (x left j : N) : N * N * N :=
+Definition rg_bytes (cnt8 : N -> N) (x lft j : N) : N * N * N :=
   let rankmid := cnt8 j in
   if rankmid <? x then
-    let j := j / 256 in let x := x - rankmid in let left := u32 (left + 8) in
+    let j := j / 256 in let x := x - rankmid in let lft := u32 (lft + 8) in
     let rankmid := cnt8 j in
     if rankmid <? x then
-      let j := j / 256 in let x := x - rankmid in let left := u32 (left + 8) in
+      let j := j / 256 in let x := x - rankmid in let lft := u32 (lft + 8) in
       let rankmid := cnt8 j in
       if rankmid <? x then
-        let j := j / 256 in let x := x - rankmid in let left := u32 (left + 8) in
-        (x, left, j)
-      else (x, left, j)
-    else (x, left, j)
-  else (x, left, j).
+        let j := j / 256 in let x := x - rankmid in let lft := u32 (lft + 8) in
+        (x, lft, j)
+      else (x, lft, j)
+    else (x, lft, j)
+  else (x, lft, j).
 
-(* while (x > 0) { if (bit 0 of j is [want]) x--; j >>= 1; left++; } *)
-Fixpoint rg_bitscan (want : bool) (fuel : nat) (x left j : N) : option N :=
+(* while (x > 0) { if (bit 0 of j is [want]) x--; j >>= 1; lft++; } *)
+Fixpoint rg_bitscan (want : bool) (fuel : nat) (x lft j : N) : option N :=
   if 0 <? x then
     match fuel with
     | O => None
-    | S f => rg_bitscan want f (if Bool.eqb (N.odd j) want then x - 1 else x) (u32 (left + 1)) (j / 2)
+    | S f => rg_bitscan want f (if Bool.eqb (N.odd j) want then x - 1 else x) (u32 (lft + 1)) (j / 2)
     end
-  else Some left.
+  else Some lft.
 
 Definition bsearch_fuel (d : rg) : nat := S (N.size_nat (rg_n d / rg_s d + 1)).
+
+(* the code shared (textually duplicated in the C++) by select1 and select0 *)
+
+(* uint l = 0, r = n / s; uint mid = (l + r) / 2; uint rankmid = key(mid); while (l <= r) {...} *)
+Definition rg_select_search (key : N -> N -> N) (d : rg) (x : N) : option (N * N) :=
+  let r := u32 (rg_n d / rg_s d) in
+  let mid := u32 (0 + r) / 2 in
+  match rdN (rg_rs d) mid with
+  | None => None
+  | Some v => rg_bsearch key (rg_rs d) x (bsearch_fuel d) 0 r mid (key mid v)
+  end.
+
+(* from "left = mid * factor" to the end of the bit-by-bit loop; [inl ret] is the
+   early "return n", [inr left] the value of left after the last loop *)
+Definition rg_select_tail (want : bool) (cntf cnt8 : N -> N) (d : rg) (x mid rankmid : N) : option (N + N) :=
+  let lft := u32 (mid * rg_factor d) in
+  let x := u32 (x + W32 - rankmid) in
+  match rdN (rg_data d) lft with
+  | None => None
+  | Some j =>
+      match rg_scan cntf (rg_data d) (rg_integers d) (rg_n d) (S (length (rg_data d))) x lft j (cntf j) with
+      | None => None
+      | Some (inl ret) => Some (inl ret)
+      | Some (inr (x, lft, j)) =>
+          let '(x, lft, j) := rg_bytes cnt8 x (u32 (lft * 32)) j in
+          match rg_bitscan want 33 x lft j with
+          | None => None
+          | Some lft => Some (inr lft)
+          end
+      end
+  end.
 
 Definition rg_select1 (d : rg) (x1 : N) : option N :=
   let x := u32 x1 in
   if rg_ones d <? x then Some (W32 - 1) else
-  let r := u32 (rg_n d / rg_s d) in
-  let mid := u32 (0 + r) / 2 in
-  match nthN (rg_rs d) mid with
+  match rg_select_search (fun _ v => v) d x with
   | None => None
-  | Some rankmid =>
-      match rg_bsearch (fun _ v => v) (rg_rs d) x (bsearch_fuel d) 0 r mid rankmid with
+  | Some (mid, rankmid) =>
+      match rg_select_tail true popcount popcount8 d x mid rankmid with
       | None => None
-      | Some (mid, rankmid) =>
-          let left := u32 (mid * rg_factor d) in
-          let x := u32 (x + W32 - rankmid) in
-          match nthN (rg_data d) left with
-          | None => None
-          | Some j =>
-              match rg_scan popcount (rg_data d) (rg_integers d) (rg_n d) (S (length (rg_data d))) x left j (popcount j) with
-              | None => None
-              | Some (inl ret) => Some ret
-              | Some (inr (x, left, j)) =>
-                  let '(x, left, j) := rg_bytes popcount8 x (u32 (left * 32)) j in
-                  match rg_bitscan true 33 x left j with
-                  | None => None
-                  | Some left => Some (u32 (left + W32 - 1))
-                  end
-              end
-          end
+      | Some (inl ret) => Some ret
+      | Some (inr lft) => Some (u32 (lft + W32 - 1))          (* return left - 1 *)
       end
   end.
 
@@ -327,32 +346,15 @@ Definition rg_select0 (d : rg) (x1 : N) : option N :=
   if u64 (rg_n d + W64 - rg_ones d) <? x then Some (W32 - 1) else
   if x =? 0 then Some 0 else
   let key := fun mid v => u32 (u64 (mid * rg_factor d * 32 + W64 - v)) in
-  let r := u32 (rg_n d / rg_s d) in
-  let mid := u32 (0 + r) / 2 in
-  match nthN (rg_rs d) mid with
+  match rg_select_search key d x with
   | None => None
-  | Some v =>
-      match rg_bsearch key (rg_rs d) x (bsearch_fuel d) 0 r mid (key mid v) with
+  | Some (mid, rankmid) =>
+      match rg_select_tail false zcount zcount8 d x mid rankmid with
       | None => None
-      | Some (mid, rankmid) =>
-          let left := u32 (mid * rg_factor d) in
-          let x := u32 (x + W32 - rankmid) in
-          match nthN (rg_data d) left with
-          | None => None
-          | Some j =>
-              match rg_scan zcount (rg_data d) (rg_integers d) (rg_n d) (S (length (rg_data d))) x left j (zcount j) with
-              | None => None
-              | Some (inl ret) => Some ret
-              | Some (inr (x, left, j)) =>
-                  let '(x, left, j) := rg_bytes zcount8 x (u32 (left * 32)) j in
-                  match rg_bitscan false 33 x left j with
-                  | None => None
-                  | Some left =>
-                      let left := u32 (left + W32 - 1) in
-                      if rg_n d <? left then Some (rg_n d) else Some left
-                  end
-              end
-          end
+      | Some (inl ret) => Some ret
+      | Some (inr lft) =>
+          let lft := u32 (lft + W32 - 1) in                     (* left--; *)
+          if rg_n d <? lft then Some (rg_n d) else Some lft     (* if (left > n) return n; else return left; *)
       end
   end.
 
@@ -409,7 +411,7 @@ Definition rg_load (bs : list N) : option (rg * list N) :=
 Inductive wt (B : Type) : Type :=
 | WNull : wt B                                   (* child == NULL            *)
 | WLeaf : N -> N -> wt B                         (* wt_node_leaf(symbol, count) *)
-| WNode : B -> wt B -> wt B -> wt B              (* bitmap, left, right      *)
+| WNode : B -> wt B -> wt B -> wt B              (* bitmap, lft, rgt      *)
 | WBad : wt B.                                   (* builder ran out of fuel (unbounded recursion) *)
 Arguments WNull {B}. Arguments WLeaf {B}. Arguments WNode {B}. Arguments WBad {B}.
 
@@ -435,14 +437,14 @@ Section WaveletTree.
     | O => WBad
     | S f =>
         let bits := map (fun x => is_set x l) s in
-        let left := filter (fun x => negb (is_set x l)) s in
-        let right := filter (fun x => is_set x l) s in
+        let lft := filter (fun x => negb (is_set x l)) s in
+        let rgt := filter (fun x => is_set x l) s in
         let child := fun (c : list N) =>
           match c with
           | [] => WNull
           | x :: _ => if all_same c then WLeaf x (lenN c) else wt_build f (S l) c
           end in
-        WNode (bbuild bits) (child left) (child right)
+        WNode (bbuild bits) (child lft) (child rgt)
     end.
 
   Definition dec64 (x : N) : N := u64 (x + W64 - 1).
